@@ -34,9 +34,10 @@ type FoCfg struct {
 	StatOn     bool               `json:"StatOn"`
 	InitBe     map[string]*foEntJ `json:"InitBe"`
 	InitErrs   map[string]*foEntJ `json:"InitErrs"`
-	Backend    string             `json:"Backend"` // ShardedMap | SyncMap (Generic: ShardedMapOf unless OfAny)
-	OfAny      bool               `json:"OfAny"`   // Generic only: FailoverOf[interface{}] over Backend (ShardedMap | SyncMap)
-	Collide    bool               `json:"Collide"` // two keys that collide under xxhash64 (SyncMap backend only: sharded maps share the slot)
+	Backend    string             `json:"Backend"`    // ShardedMap | SyncMap (Generic: ShardedMapOf unless OfAny)
+	OfAny      bool               `json:"OfAny"`      // Generic only: FailoverOf[interface{}] over Backend (ShardedMap | SyncMap)
+	Collide    bool               `json:"Collide"`    // two keys that collide under xxhash64 (SyncMap backend only: sharded maps share the slot)
+	CollideAny bool               `json:"CollideAny"` // ... over any backend (random walks judged by collision-independent monitors only)
 	UnitSec    int                `json:"UnitSec"`
 	Defaults   bool               `json:"Defaults"` // leave FailedUpdateTTL/UpdateTTL/TimeToLive at library defaults (UnitSec must be 40)
 	Mutability bool               `json:"Mutability"`
@@ -150,6 +151,7 @@ type sched struct {
 	serial  *sync.Mutex            // free-running mode: backend operation + its log line are one critical section
 	flavour int                    // rotates the error flavour of failing builders
 	lastExp map[string]string      // process -> last expired value its backend read returned
+	onFail  func(p string)         // called by a failing builder before it returns (every other failure): caller cancels
 	gateLog bool
 	gateSt  bool
 }
@@ -325,7 +327,14 @@ func (s *sched) build(ctx context.Context, p, mk string, bg func() bool) (string
 	s.mu.Lock()
 	s.flavour++
 	fl := errFlavours[s.flavour%len(errFlavours)]
+	cancelFirst := s.onFail != nil && s.flavour%2 == 0
 	s.mu.Unlock()
+
+	// every other failing build: the caller's context is cancelled while the builder is still running (a synchronous
+	// build runs under the caller's context); the failure is a failure all the same
+	if cancelFirst {
+		s.onFail(p)
+	}
 
 	return "", tokErr{tok: e, wrap: fl}
 }
@@ -484,7 +493,7 @@ func (g *gateRWOf) Write(ctx context.Context, key []byte, v string) error {
 // overwrite its buffer with another live key; with cfg.Collide (two keys, SyncMap behind the Failover) a constructed
 // xxhash64 collision - the Failover must keep the keys apart although their hashes are equal.
 func foKeys(cfg FoCfg, km *KeyMap, seed int64, salt int64) {
-	if cfg.Collide && len(cfg.Keys) == 2 && cfg.Backend == "SyncMap" && (!cfg.Generic || cfg.OfAny) {
+	if cfg.Collide && len(cfg.Keys) == 2 && (cfg.CollideAny || (cfg.Backend == "SyncMap" && (!cfg.Generic || cfg.OfAny))) {
 		if a, b, ok := CollidingPair(rand.New(rand.NewSource(seed*31 + salt))); ok { //nolint:gosec
 			km.ByModel[cfg.Keys[0]], km.ByModel[cfg.Keys[1]] = a, b
 			km.ByReal[string(a)], km.ByReal[string(b)] = cfg.Keys[0], cfg.Keys[1]
